@@ -1,6 +1,6 @@
 (* C07 proofs, part 3: the precedence-climbing invariant; atoms, parentheses, binary left-associative levels. *)
 From Coq Require Import List NArith Bool Arith Lia.
-From CV Require Import Ast.Defs Ast.Basics Ast.Ctx.
+From CV Require Import Ast.Defs Ast.Frag Ast.Basics Ast.Ctx.
 Import ListNotations.
 
 (* Parsing the tokens [ts] at any rank d >= rk pushes [tr] and then behaves like the loops rk .. d. *)
